@@ -37,6 +37,8 @@ def join(a: str, b: str) -> str:
         return b
     if b in (BOT, NEUTRAL):
         return a
+    if {a, b} == {PERM, PERM_ID}:
+        return PERM   # the identity permutation is a permutation (`perm if reorder else eye`, as a term or as two paths)
     return TOP
 
 
@@ -60,6 +62,9 @@ class SpaceEval:
         if path is None:
             return False
         log = path.cond_log if ncond is None else path.cond_log[:ncond]
+        return self.identity_log(log, cls)
+
+    def identity_log(self, log, cls) -> bool:
         for c, truth in log:
             if c[0] == "call" and c[1] == "torch.equal" and len(c[2]) == 2:
                 s = {self.sp(c[2][0], cls, None, None, frozenset()), self.sp(c[2][1], cls, None, None, frozenset())}
@@ -113,7 +118,11 @@ class SpaceEval:
                 if defs:
                     out = BOT
                     for v, ev in defs:
-                        out = join(out, self.sp(v, c, None, None, seen | {key}))
+                        s1 = self.sp(v, c, None, None, seen | {key})
+                        # a store made on a path where the permutation is the identity: register order is site order
+                        if s1 == REG and ev is not None and self.identity_log(ev.conds, c):
+                            s1 = SITE
+                        out = join(out, s1)
                     return out
                 return NEUTRAL
             b = rec(base)
@@ -416,6 +425,8 @@ def _results_consistency(ctx, K, S: SpaceEval) -> None:
             continue
         S.problems.clear()
         got = S.space(v, K)
+        if got == REG and S.identity_log(ev.conds, K):
+            got = SITE   # stored on the path where the permutation is the identity
         ok = got == SITE and not S.problems
         ctx.ob("PERM-results", f"{ev.func.qualname}|self.results", ev.loc(), ok,
                "Results.atom_order is the register ids gathered by the qubit permutation (site order), the "
@@ -429,10 +440,24 @@ def _perm_field(ctx, K, S: SpaceEval) -> None:
     fd = S.fdefs(K)
     defs = [(v, ev) for v, ev in fd.get("qubit_permutation", []) if ev is not None]
     ctx.require(defs, f"{K.qualname}: no store to self.qubit_permutation")
+    seen_pol = set()
+    verdicts = []
     for v, ev in defs:
         v0 = strip_typed(v)
         ok = False
         why = f"self.qubit_permutation = {show(v)[:140]}"
+        sv = S.sp(v0, K, None, None, frozenset())
+        pols = set()
+        for conds in getattr(ev, "alt_conds", [ev.conds]):
+            fl = [t for c, t in conds if S.is_opt_flag(c)]
+            pols.add(fl[-1] if fl else None)
+        flag = [next(iter(pols))] if len(pols) == 1 and None not in pols else []
+        if len(pols) > 1:
+            # the same value is stored whatever the flag says (or on paths that never consult it)
+            verdicts.append((sv == PERM_ID, f"self.qubit_permutation = {show(v)[:140]} is stored for optimize_qubit_ordering in "
+                             f"{sorted(map(str, pols))}", ev))
+            seen_pol |= {x for x in pols if x is not None}
+            continue
         if v0[0] == "ifexp":
             c, a, b = v0[1], v0[2], v0[3]
             sa, sb = S.sp(a, K, None, None, frozenset()), S.sp(b, K, None, None, frozenset())
@@ -440,14 +465,27 @@ def _perm_field(ctx, K, S: SpaceEval) -> None:
                 ok = True
             elif c[0] == "un" and c[1] == "not" and S.is_opt_flag(c[2]) and sa == PERM_ID and sb == PERM:
                 ok = True
-        elif S.sp(v0, K, None, None, frozenset()) == PERM_ID:
+            seen_pol |= {True, False}
+        elif flag:
+            # stored on a path that has decided the flag: optimiser result when on, identity when off
+            ok = (flag[-1] is True and sv == PERM) or (flag[-1] is False and sv == PERM_ID)
+            seen_pol.add(flag[-1])
+            why += f" on the path where optimize_qubit_ordering is {flag[-1]}"
+        elif sv == PERM_ID:
             ok = True
+            seen_pol |= {True, False}
             why = "the permutation is always the identity"
-        ctx.ob("PERM-field", f"{ev.func.qualname}|self.qubit_permutation", ev.loc(), ok,
-               "qubit_permutation is the optimiser's result exactly when config.optimize_qubit_ordering, "
-               "the identity otherwise (the identity refinement used by PERM is valid)" if ok else
-               why + " is not (optimiser result if optimize_qubit_ordering else identity): results are "
-                     "un-permuted under that flag only")
+        verdicts.append((ok, why, ev))
+    both = seen_pol == {True, False}
+    ok_all = all(o for o, _, _ in verdicts) and both
+    bad = [w for o, w, _ in verdicts if not o]
+    ev0 = verdicts[0][2]
+    ctx.ob("PERM-field", f"{ev0.func.qualname}|self.qubit_permutation", ev0.loc(), ok_all,
+           "qubit_permutation is the optimiser's result exactly when config.optimize_qubit_ordering, "
+           "the identity otherwise (the identity refinement used by PERM is valid)" if ok_all else
+           (bad[0] if bad else "self.qubit_permutation is not defined for both values of optimize_qubit_ordering")
+           + " is not (optimiser result if optimize_qubit_ordering else identity): results are "
+             "un-permuted under that flag only")
 
 
 # ------------------------------------------------------------- entry points
